@@ -27,6 +27,15 @@ fn determinism_cfg() -> Cfg {
     c
 }
 
+/// "The variable N has not been assigned a value" where N is an output-capable signal
+fn unassigned_output_name(msg: &str, sigs: &[crate::model::Sig]) -> bool {
+    msg.split("The variable ")
+        .nth(1)
+        .and_then(|r| r.split(' ').next())
+        .map(|n| sigs.iter().any(|s| s.name == n && s.is_output()))
+        .unwrap_or(false)
+}
+
 impl Property for C15 {
     fn id(&self) -> &'static str {
         "C15"
@@ -36,8 +45,8 @@ impl Property for C15 {
     }
     fn cases(&self, tier: Tier) -> u64 {
         match tier {
-            Tier::Quick => 4000,
-            Tier::Thorough => 16 * 25000,
+            Tier::Quick => 32000,
+            Tier::Thorough => 32000 * 100,
         }
     }
     fn required_classes(&self) -> Vec<&'static str> {
@@ -241,15 +250,27 @@ impl Property for C15 {
                         out.fail("c15:static-vs-dynamic", format!("dynamic run under the {which} script could not be constructed: {:?}", d.ctor));
                         return out;
                     }
-                    if d.items.len() != items.len() || d.ended != *ended {
-                        out.fail(
-                            "c15:static-vs-dynamic",
-                            format!("static iteration yields {} items (ended {ended}), the dynamic run under the {which} script {} (ended {})", items.len(), d.items.len(), d.ended),
-                        );
-                        return out;
+                    if let Some((k, StaticItem::Err(m))) = items.iter().enumerate().last() {
+                        if unassigned_output_name(m, &built.sigs) && !matches!(d.items.get(k), Some(RealItem::RuntimeErr(_))) {
+                            out.fail(
+                                "c15:static-run-reads-output-through-unassigned-variable",
+                                format!("item {k}: static iteration fails with '{m}' where the dynamic run ({which} script) goes on: {:?}", d.items.get(k).map(|x| x.short())),
+                            );
+                            return out;
+                        }
                     }
                     for (k, (si, di)) in items.iter().zip(&d.items).enumerate() {
                         match (si, di) {
+                            (StaticItem::Err(m), RealItem::Row(_)) if unassigned_output_name(m, &built.sigs) => {
+                                // known finding (open): a name that is a variable for the parser
+                                // (let on a path that did not run) but resolves to the device
+                                // output of the same name at run time
+                                out.fail(
+                                    "c15:static-run-reads-output-through-unassigned-variable",
+                                    format!("item {k}: static iteration fails with '{m}' where the dynamic run ({which} script) yields {}", di.short()),
+                                );
+                                return out;
+                            }
                             (StaticItem::Row(sr), RealItem::Row(dr)) => {
                                 let dexp: Vec<(String, crate::model::ExpVal)> = dr.outputs.iter().map(|o| (o.name.clone(), o.expected)).collect();
                                 // mid-clock rows carry no expected values in either API
@@ -271,6 +292,13 @@ impl Property for C15 {
                                 return out;
                             }
                         }
+                    }
+                    if d.items.len() != items.len() || d.ended != *ended {
+                        out.fail(
+                            "c15:static-vs-dynamic",
+                            format!("static iteration yields {} items (ended {ended}), the dynamic run under the {which} script {} (ended {})", items.len(), d.items.len(), d.ended),
+                        );
+                        return out;
                     }
                 }
                 static_rows = items.len();
